@@ -64,10 +64,10 @@ func genRHS(t *rapid.T, p *big.Int, m *refmat.Mat, left bool) ([]*big.Int, strin
 func (e *env[S, G]) Solve(t *rapid.T) {
 	const test = "Solve"
 	left := rapid.Bool().Draw(t, "left")
-	r := rapid.IntRange(1, 7).Draw(t, "rows")
+	r := genSize(t, "rows", 1, 7, 25, matDimTail)
 	c := r
 	if rapid.IntRange(0, 4).Draw(t, "nonSquare") > 0 {
-		c = rapid.IntRange(1, 7).Draw(t, "cols")
+		c = genSize(t, "cols", 1, 7, 25, matDimTail)
 	}
 	M, mc := genMatrix(t, "M", e.p, r, c)
 	b, bc := genRHS(t, e.p, M, left)
@@ -154,7 +154,7 @@ func TestSolve(t *testing.T) {
 
 func (e *env[S, G]) Square(t *rapid.T) {
 	const test = "Square"
-	n := rapid.IntRange(1, 7).Draw(t, "n")
+	n := genSize(t, "n", 1, 7, 25, matDimTail)
 	A, ac := genMatrix(t, "A", e.p, n, n)
 	la := e.libSquare(t, A)
 	in := func() string { return fmt.Sprintf("%s: A=%s", e.name, fmtMat(A)) }
@@ -234,12 +234,12 @@ func TestSquare(t *testing.T) {
 
 func (e *env[S, G]) Rect(t *rapid.T) {
 	const test = "Rect"
-	r := rapid.IntRange(1, 7).Draw(t, "r")
-	k := rapid.IntRange(1, 7).Draw(t, "k")
-	c := rapid.IntRange(1, 7).Draw(t, "c")
+	r := genSize(t, "r", 1, 7, 30, matDimTail)
+	k := genSize(t, "k", 1, 7, 30, matDimTail)
+	c := genSize(t, "c", 1, 7, 30, matDimTail)
 	k2 := k
 	if rapid.IntRange(0, 3).Draw(t, "mismatch") == 0 {
-		k2 = rapid.IntRange(1, 7).Draw(t, "k2")
+		k2 = genSize(t, "k2", 1, 7, 30, matDimTail)
 	}
 	A, _ := genMatrix(t, "A", e.p, r, k)
 	B, _ := genMatrix(t, "B", e.p, k2, c)
@@ -352,6 +352,21 @@ func (e *env[S, G]) Lift(t *rapid.T) {
 	r := rapid.IntRange(1, 4).Draw(t, "r")
 	k := rapid.IntRange(1, 4).Draw(t, "k")
 	c := rapid.IntRange(1, 4).Draw(t, "c")
+	// tail: one of the three dimensions is long (the library has no limit; every entry of the
+	// result is a sum of k group scalar multiplications, so only ONE dimension grows and the other
+	// two stay <= 2 to keep the number of group operations of a case below ~100)
+	if rapid.IntRange(1, 25).Draw(t, "long") == 25 {
+		long := rapid.SampledFrom([]int{5, 8, 9, 16, 17}).Draw(t, "longDim")
+		r, k, c = rapid.IntRange(1, 2).Draw(t, "r'"), rapid.IntRange(1, 2).Draw(t, "k'"), rapid.IntRange(1, 2).Draw(t, "c'")
+		switch rapid.SampledFrom([]string{"r", "k", "k", "c"}).Draw(t, "which") {
+		case "r":
+			r = long
+		case "k":
+			k = long // length of the inner sums of LeftAction / rows of the lifted operand
+		default:
+			c = long
+		}
+	}
 	A, _ := genMatrix(t, "A", e.p, r, k) // scalar actor
 	X, _ := genMatrix(t, "X", e.p, k, c) // lifted operand
 	s, sc := big.NewInt(1), "G"
